@@ -274,7 +274,7 @@ Theorem obj_upowmod s x y m s' r : o_upowmod s x y m = Ok (s', r) ->
   exists v, upowmod (oget s x) (oget s y) (oget s m) = Ok v /\ fresh_res s (s', r) v.
 Proof.
   unfold o_upowmod. destruct (upowmod (oget s x) (oget s y) (oget s m)) as [v|e] eqn:Ev; [|discriminate]. intros Hres. exists v. split; [reflexivity|].
-  unfold upowmod in Ev. destruct (bisone (oget s m)).
+  unfold upowmod, upowmod_pol in Ev. destruct (bisone (oget s m)).
   - injection Hres as <- <-. injection Ev as <-. apply alloc_fresh, sext_refl.
   - pose proof (new_fresh s s x (sext_refl s)) as N1. destruct (o_new s x) as [s1 cx]. destruct N1 as (E1 & _).
     pose proof (new_fresh s1 s1 y (sext_refl s1)) as N2. destruct (o_new s1 y) as [s2 cy]. destruct N2 as (E2 & R2 & _). cbn [fst snd] in *.
